@@ -62,8 +62,18 @@ func c09(r *Report) {
 	vm := p.Func(dn, "verificationMethodValidator", "Validate")
 	// the owner every entry id is compared with is the id of the document under validation (not e.g. the entry's own controller)
 	r.ArgIsEverywhere("C09.entry-id.owner-is-the-document", Fn(dn, "", "verifyDocumentEntryID"), 0, FieldV("Document", "ID"), 2)
-	r.Gate(Gate{ID: "C09.vm.entry-id", Fn: vm, Effect: SuccessReturn(), ForEach: true, Check: ErrCheck(Fn(dn, "", "verifyDocumentEntryID"))})
-	r.Gate(Gate{ID: "C09.vm.thumbprint", Fn: vm, Effect: SuccessReturn(), ForEach: true, Check: ErrCheck(Fn(dn, "verificationMethodValidator", "verifyThumbprint"))})
+	// both rules apply to the document's verification methods AND to the methods embedded in a verification relationship
+	// (fix: embedded capabilityInvocation keys bypassed them) — hence two sites each; a relationship entry that merely
+	// refers to a method of the document is skipped (it was validated as a method)
+	isRef := []Check{CallCheck(Fn(dn, "", "isEmbeddedVerificationMethod"), -1, IsFalse)}
+	entryID := ErrCheck(Fn(dn, "", "verifyDocumentEntryID"))
+	entryID.MinSite = 2
+	thumb := ErrCheck(Fn(dn, "verificationMethodValidator", "verifyThumbprint"))
+	thumb.MinSite = 2
+	r.Gate(Gate{ID: "C09.vm.entry-id", Fn: vm, Effect: SuccessReturn(), ForEach: true, Check: entryID, Skip: isRef})
+	r.Gate(Gate{ID: "C09.vm.thumbprint", Fn: vm, Effect: SuccessReturn(), ForEach: true, Check: thumb, Skip: isRef})
+	r.Gate(Gate{ID: "C09.vm.relationship-has-method", Fn: vm, Effect: SuccessReturn(), ForEach: true,
+		Check: CmpCheck("entry.VerificationMethod == nil is false", token.EQL, FieldV("VerificationRelationship", "VerificationMethod"), NilV(), false)})
 	vt := p.Func(dn, "verificationMethodValidator", "verifyThumbprint")
 	r.Gate(Gate{ID: "C09.vm.kid-equals-fragment", Fn: vt, Effect: SuccessReturn(), Check: CmpCheck("keyAsJWK.KeyID() == method.ID.Fragment", token.EQL, CallV(Fn(jwkPkg, "Key", "KeyID"), -1), PathV("Fragment"), true)})
 	c09ThumbprintFromKeyMaterial(r, vt)
